@@ -114,12 +114,24 @@ def run_case(case):
             wenv.step(a)
     sc, sp = build_source(case["source"])
     env = NASimEnv(sc, **case["modes"])
-    def play():
+    def play(render=False):
+        import contextlib
+        import io
         np.random.seed(case["seed"])
         env.reset()
         h = hashlib.sha256()
         chance = 0
-        for a in case["actions"]:
+        for n_, a in enumerate(case["actions"]):
+            if render and n_ % 7 == 3:
+                # read-only calls between the steps
+                with contextlib.redirect_stdout(io.StringIO()):
+                    try:
+                        env.render_state(mode="ansi")
+                        env.render_obs(mode="ansi")
+                        env.get_action_mask()
+                        env.goal_reached()
+                    except Exception:       # noqa (rendering is not C14's)
+                        pass
             if a == "reset":
                 env.reset()
                 h.update(b"reset")
@@ -138,7 +150,12 @@ def run_case(case):
     fp, chance = play()
     # the same seeded run once more on the very same environment object
     fp_same_env, _ = play()
-    return {"fp": fp, "chance": chance, "fp_same_env": fp_same_env}
+    # ... and once more with read-only calls (render, mask, goal query)
+    # between the steps, on a fresh environment object
+    env = NASimEnv(sc, **case["modes"])
+    fp_render, _ = play(render=True)
+    return {"fp": fp, "chance": chance, "fp_same_env": fp_same_env,
+            "fp_render": fp_render}
 
 
 def child_main():
@@ -306,8 +323,14 @@ def run(prop, tier, seed, shard, nshards):
         fps = [r["fp"] for r in res]
         again = [r["fp_again"] for r in res]
         wit = {"kind": "repro", "case": c}
-        if ctype == "traj" and any(r.get("fp_same_env") != r["fp"]
+        if ctype == "traj" and any(r.get("fp_render", r["fp"]) != r["fp"]
                                    for r in res):
+            acc.violation("read_only_calls_change_seeded_run",
+                          "read_only_calls_change_seeded_run",
+                          {"plain": fps, "with_render_mask_goal_queries":
+                           [r.get("fp_render") for r in res]}, wit)
+        elif ctype == "traj" and any(r.get("fp_same_env") != r["fp"]
+                                     for r in res):
             acc.violation("not_reproducible_on_same_environment",
                           "not_reproducible_on_same_environment",
                           {"first": fps,
